@@ -125,15 +125,20 @@ static int open_listener(int port)
 	return l;
 }
 
+/* Ports are taken below the ephemeral range (ip_local_port_range starts at 32768): while a
+ * listener is closed ("TCP refused") a client connect() to its port must get a reset —
+ * inside the ephemeral range the kernel can pick the destination port as source port
+ * (TCP self-connect) or hand the port to another process. */
 static int open_pair(struct dnse_ns *n)
 {
-	for (int attempt = 0; attempt < 200; attempt++) {
-		struct sockaddr_in a; socklen_t sl = sizeof a;
+	static unsigned seq;
+	for (int attempt = 0; attempt < 4000; attempt++) {
+		struct sockaddr_in a;
+		int port = 10000 + (int)(((unsigned)getpid() * 131u + (seq++) * 7919u) % 22000u);
 		int u = __real_socket(AF_INET, SOCK_DGRAM | SOCK_NONBLOCK | SOCK_CLOEXEC, 0);
 		if (u < 0) return -1;
-		memset(&a, 0, sizeof a); a.sin_family = AF_INET; a.sin_addr.s_addr = htonl(0x7f000001);
-		if (bind(u, (struct sockaddr *)&a, sizeof a) < 0 || getsockname(u, (struct sockaddr *)&a, &sl) < 0) { close(u); continue; }
-		int port = ntohs(a.sin_port);
+		memset(&a, 0, sizeof a); a.sin_family = AF_INET; a.sin_addr.s_addr = htonl(0x7f000001); a.sin_port = htons(port);
+		if (bind(u, (struct sockaddr *)&a, sizeof a) < 0) { close(u); continue; }
 		int l = open_listener(port);
 		if (l < 0) { close(u); continue; }
 		n->udp = u; n->lis = l; n->port = port; n->listening = 1;
